@@ -19,7 +19,7 @@ var registryHosts = []string{"", "", "example.com", "terraform.example.com", "ãƒ
 var plainSegs = []string{"repo", "org", "my-repo", "mod_v2", "a.b", "x~y", "go-slug", "hashicorp", "v1", "1"}
 var oddSegs = []string{"with space", "Ã¼ni", "per%20cent", "plus+", "at@", "colon:", "semi;", "eq=", "amp&", "hash#", "q?", "%2F", "%2F%2F", "%2e%2e", "..", ".", "", "a//b", "star*", "quote\"", "back\\slash", "%", "%zz", "Â ", "tab\t"}
 var subSegs = []string{"modules", "vpc", "a", "b", "examples", "x.tf", "sub-dir", "v2", "m_1"}
-var oddSubSegs = []string{"with space", "Ã¼ni", "per%20cent", "plus+", "at@v1", "colon:", "hash#frag", "q?x", "%2F", "..", ".", "", "@", "a@1.0.0", "star*", "semi;", "%", "~", "back\\slash"}
+var oddSubSegs = []string{"..shared", "...", ".hidden", "..", "with space", "Ã¼ni", "per%20cent", "plus+", "at@v1", "colon:", "hash#frag", "q?x", "%2F", "..", ".", "", "@", "a@1.0.0", "star*", "semi;", "%", "~", "back\\slash"}
 var names = []string{"hashicorp", "subnets", "cidr", "aws", "my-ns", "mod_1", "A", "a1", "x-y_z"}
 var systems = []string{"aws", "azurerm", "cidr", "null", "a1", "k8s"}
 var versions = []string{"1.0.0", "0.1.2", "2.10.3", "1.0.0-beta1", "1.2.3+build5", "0.0.1", "10.20.30", "1.0.0-rc.1+meta"}
@@ -146,6 +146,10 @@ func Violation(t *rapid.T) (string, string) {
 		{"checksum-with-archive", "https://" + host + "/download?archive=tgz&checksum=sha256:abc"},
 		{"archive-zip", "https://" + host + "/download" + sub + "?archive=zip"},
 		{"two-archive", "https://" + host + "/download?archive=tgz&archive=tgz"},
+		{"empty-archive-with-suffix", "https://" + host + "/pkg.tgz" + sub + "?archive="},
+		{"empty-then-zip-archive", "https://" + host + "/pkg.tar.gz?archive=&archive=zip"},
+		{"empty-archive", "https://" + host + "/download?archive="},
+		{"empty-then-tgz-archive", "https://" + host + "/pkg.tgz?archive=&archive=tgz"},
 		{"no-archive-suffix", "https://" + host + "/pkg.zip" + sub},
 		{"no-archive-suffix-bare", "https://" + host + "/download"},
 		{"subpath-dot", "git::https://" + host + "/repo.git//a/./b"},
@@ -179,7 +183,7 @@ func Violation(t *rapid.T) (string, string) {
 	return r.s, r.name
 }
 
-var insertions = []string{"%", "/", "?", "#", "@", ":", ";", "&", " ", "+", "\\", "\"", "<", "[", "]", "{", "|", "^", "~", "`", "%2F", "%2f%2F", "//", "..", "/./", "&ref=x", "?ref=y",
+var insertions = []string{"%", "/", "?", "#", "@", ":", ";", "&", " ", "+", "\\", "\"", "<", "[", "]", "{", "|", "^", "~", "`", "%2F", "%2f%2F", "//", "///", "////", "/////", "//////", "///////", "..", "/./", "&ref=x", "?ref=y",
 	"user@", "user:pw@", "#frag", "#a//b", "Ã¼", "â€®", "\x7f", "::", "git::", "GIT::", "@1.0.0", "=", "%00", "\t", "?archive=tgz", "?checksum=1", "%25", "'"}
 
 // Mutate applies 1-3 random edits.
